@@ -52,7 +52,9 @@ CASES = {"quick": 3000, "thorough": 80000, "search": 20000}
 RULE = ("sequences of 2-4 documents in mixed syntaxes (nt, nquads, turtle, n3, trig, rdf/xml, trix, json-ld, hext) written "
         "by the harness' own writers and parsed, by every input route of parse(), into one Graph (Memory / SimpleMemory) / "
         "Dataset / ConjunctiveGraph that already has content (default graph, its Graph view, or a named graph, IRI- or "
-        "blank-node-named); non-trivial = some blank-node label string is used by two different parse calls or equals the "
+        "blank-node-named), a share of them with the keyword arguments that change label handling (bnode_context= dicts shared "
+        "between calls, one N-Quads parser object used again, skolemize=True, preserve_bnode_ids=True, JSON-LD blank-node "
+        "property keys without generalized_rdf) and, in N3, labels inside / outside / across formulae; non-trivial = some blank-node label string is used by two different parse calls or equals the "
         "id of a node already in the target; distinct = distinct (sink, init, formats, abstract documents); per-axis counts "
         "of the surface audit (design.d/C12.md) are the axis.* entries of generator_distribution")
 ASSUMPTIONS = ["BNode() ids (uuid4) differ from each other and from every id already present in the target (Lean: WF)",
@@ -64,12 +66,16 @@ ASSUMPTIONS = ["BNode() ids (uuid4) differ from each other and from every id alr
                "no variables / @forAll"]
 TRUSTED = ["harness/c12.py generators, harness/c12docs.py document writers (text is trusted to mean the abstract document)",
            "harness/c12.py canonical labelling (cross-checked on every case against harness/isoutil.iso)",
-           "lean/RV/C12/Drive.lean line protocol"]
+           "lean/RV/C12/Drive.lean line protocol",
+           "harness/c12.py _stmt_lines: the `{` / `}` events of an N3 document are derived from the abstract document the same "
+           "way the writer nests the text (a formula = the consecutive statements whose graph is its anonymous node)"]
 
 # label policy of each parser as the code stands: r = per-parse-call label map with fresh nodes (remap),
 # v = BNode(label) (verbatim).  TriX and JSON-LD were `v` before the repairs C12-F3/F4; the hextuples parser still
 # is (known finding C12-K1: rdflib's own tests pin BNode("graph-2") for the label `_:graph-2`).
-POLICY = {"nt": "r", "nquads": "r", "turtle": "r", "n3": "r", "trig": "r", "xml": "r", "trix": "r", "json-ld": "r",
+# Round g: documentation only — the model side is told the parser's *name* and runs that parser's own node function
+# (lean/RV/C12/Parsers.lean: nodeFn / n3Run); this table is `(loptsOf p default).pol`, proved there.
+POLICY ={"nt": "r", "nquads": "r", "turtle": "r", "n3": "r", "trig": "r", "xml": "r", "trix": "r", "json-ld": "r",
           "hext": "v"}
 
 DEFAULT = URIRef("urn:x-rdflib:default")
